@@ -117,6 +117,16 @@ def run(ctx):
     for cid in range(ncases):
         tz_min = rng.choice([0, -480, 330, 765])
         targ = "-t=" + gen.off_str(tz_min)
+        # other documented spellings of --tz-offset: "+hhmm", "+hh", and unambiguous zone names
+        sp = rng.random()
+        if sp < 0.2:
+            targ = "-t=" + gen.off_str(tz_min, colon=False)
+        elif sp < 0.35 and tz_min % 60 == 0:
+            targ = "-t=" + dtcat.zs(tz_min, "hh")
+        elif sp < 0.55:
+            ab = rng.choice(sorted(k for k, v in unamb.items() if v))
+            tz_min = dtcat.ABBR[ab]
+            targ = "-t=" + ab
         shape = rng.choice(["a", "b", "ab", "a@b", "b@a", "nowa", "nowb", "now-ab"])
         sa = sb = None
         ea = eb = None
